@@ -544,6 +544,17 @@ impl G {
         for &ch in &ids {
             self.w.event_chan(ch);
         }
+        if self.rng.chance(1, 3) {
+            // the server closes while a frame is half written: what was queued must still go
+            // out whole, then CloseOk
+            let len = self.w.outbuf_len();
+            if len > 2 {
+                let k = self.rng.range(1, len as u64 - 1) as usize;
+                let mut r = self.rng.fork();
+                self.w.stream(Some(vec![Wr::Wrote(k), Wr::Block]), None, &mut r);
+            }
+            self.feed_stream(vec![FR::Method(0, SM::ConnClose(320, "shutdown".into()))], Term::Block);
+        }
         self.flush_all();
         self.w.peek_out();
     }
